@@ -192,8 +192,10 @@ func TestVerifC26(t *testing.T) {
 				}
 			} else {
 				rep.Count("int_results_overflow", 1)
-				// must fall back to decimal arithmetic: within 1 unit of 16th digit, never wrapped
-				if g == nil || !within(g, ex) {
+				// must fall back to decimal arithmetic, never wrapped. Decimal arithmetic first rounds each operand to 16
+				// digits (up to half a unit each for integers of 17-19 digits) and then rounds the result (half a unit):
+				// up to 1.5e-15 relative in all, so the bound is 2e-15 relative (a wrapped value is off by orders of magnitude)
+				if g == nil || !withinN(g, ex, 2) {
 					rep.Violate("C26/int-overflow-wrap/"+op.name, key, map[string]any{"got": got.String(), "exact": exact.String()})
 				}
 			}
